@@ -240,7 +240,8 @@ def _rel_all(pid, contract, ob):
         if pid == "C04":
             return "set_trial_state_values" in name or "create_trial" in name or "owns(" in clause
         if pid == "C20":
-            return kind == "frame" or "j_others_same" in clause or "shared_unchanged" in clause or "is old(" in clause
+            return kind == "frame" or "j_others_same" in clause or "shared_unchanged" in clause or "is old(" in clause \
+                or "j_selected" in clause or "fresh(" in clause
         return True
     return _rel_mixed(pid, contract, ob)
 
